@@ -45,20 +45,20 @@ type c3Replay struct {
 }
 
 type c3Checker struct {
-	res       *vk.Result
-	p         vk.Params
-	levels    []OptimizationLevel
-	kinds     map[string][]string // (prog|modes|level) -> sorted failing kinds
-	shrunk    map[string]c3Cand   // pre-key -> shrunk case
-	keyOf     map[string]string   // shrunk pre-key -> final key (reported already)
-	vm        *vm.VM              // reused (VM.Reset) for the bulk runs; failures are confirmed on fresh VMs
+	res          *vk.Result
+	p            vk.Params
+	levels       []OptimizationLevel
+	kinds        map[string][]string // (prog|modes|level) -> sorted failing kinds
+	shrunk       map[string]c3Cand   // pre-key -> shrunk case
+	keyOf        map[string]string   // shrunk pre-key -> final key (reported already)
+	vm           *vm.VM              // reused (VM.Reset) for the bulk runs; failures are confirmed on fresh VMs
 	nUnconfirmed int64
-	nPrograms int64
-	nDisagree int64
-	nDistinct int64
-	nEvals    int64
-	nUnjudged int64
-	nFailing  int64
+	nPrograms    int64
+	nDisagree    int64
+	nDistinct    int64
+	nEvals       int64
+	nUnjudged    int64
+	nFailing     int64
 }
 
 type c3Cand struct {
@@ -179,6 +179,9 @@ func c3StmtVariants(s *c3S, boring *c3E) []*c3S {
 	if len(s.C) > 0 {
 		with(func(c *c3S) { c.C = nil })
 	}
+	if s.St != 0 {
+		with(func(c *c3S) { c.St = 0 })
+	}
 	if s.K != "ret" && s.K != "expr" {
 		out = append(out, c3Ret(s.E)) // the plainest observer of the expression
 	}
@@ -280,19 +283,51 @@ func (ck *c3Checker) shrink(c c3Cand, level OptimizationLevel, kind string) c3Ca
 	result := c
 	w := c3ListWeight(c.P)
 	boring := c3FreshBoring(c.P)
+	base := c3Mechanisms(c.P, c.Modes, level)
 	for _, lv := range c3ListVariants(c.P, boring) {
 		np := c3Prog(lv.list)
 		if c3ListWeight(np) >= w {
 			continue
 		}
 		nm := c3ProjectModes(c.Modes, lv.from)
-		if ck.fails(np, nm, level, kind) {
+		if ck.fails(np, nm, level, kind) && c3Subset(c3Mechanisms(np, nm, level), base) {
 			result = ck.shrink(c3Cand{np, nm}, level, kind)
 			break
 		}
 	}
 	ck.shrunk[pre] = result
 	return result
+}
+
+// c3Mechanisms names the statement-level optimizer mechanisms a case involves:
+// dead-code removal hiding a statement the unoptimised compiler rejects, and
+// hoisting out of a loop.  A shrink step may lose mechanisms but must not bring
+// one in: otherwise the failure of one defect could be "simplified" into a
+// program that fails because of another (for instance `while c {$y = 5}; > y`,
+// a hoisting failure, into `> c; > y`, where the undefined y merely sits in
+// dead code).
+func c3Mechanisms(p c3Prog, modes string, level OptimizationLevel) map[string]bool {
+	m := map[string]bool{}
+	for _, t := range c3DeadCodeTags(p) {
+		m["dead-code:"+t] = true
+	}
+	if level >= OptAggressive {
+		if c := c3HoistClass(p, modes); c != "" {
+			for _, k := range strings.Split(c, "+") {
+				m["licm:"+k] = true
+			}
+		}
+	}
+	return m
+}
+
+func c3Subset(a, b map[string]bool) bool {
+	for k := range a {
+		if !b[k] {
+			return false
+		}
+	}
+	return true
 }
 
 func (ck *c3Checker) failsAny(p c3Prog, modes string, level OptimizationLevel) bool {
@@ -360,6 +395,13 @@ func (ck *c3Checker) report(p c3Prog, modes string, level OptimizationLevel, kin
 	switch {
 	case len(s.P) == 1 && !s.P.hasNested() && len(c3Rules(s.P, lvl)) > 0:
 		key = "rewrite|" + c3LevelName(lvl) + "|" + strings.Join(c3Rules(s.P, lvl), " & ")
+	case kinds[0] == "compile-accepts" && c3DeadCodeTag(s.P) != "":
+		// the unoptimised compiler rejects a statement that this level never
+		// compiles because it removed it as dead
+		key = "dead-code|" + c3LevelName(lvl) + "|" + c3DeadCodeTag(s.P) + "|compile-error-erased"
+	case lvl == OptAggressive && !ck.fails(s.P, s.Modes, OptBasic, class) && c3Hoists(s.P, s.Modes):
+		// only the aggressive level fails and it moves a statement out of a loop
+		key = "licm|" + c3LevelName(lvl) + "|" + kinds[0] + "|hoisted-" + c3HoistClass(s.P, s.Modes)
 	case lvl == OptAggressive && c3CSETag(s.P) != "" && !ck.fails(s.P, s.Modes, OptBasic, class):
 		// only the aggressive level fails and one expression is assigned twice:
 		// common-subexpression elimination reusing a stale value
@@ -389,6 +431,145 @@ func c3Describe(p c3Prog, modes string, level OptimizationLevel, kind string) (s
 	return fmt.Sprintf("%s: program «%s» built as %s (%s) compiled at %s: %s", kind, p.String(), c3EncName(modes), modes, c3LevelName(level), w.Desc), ok
 }
 
+// ---- attribution to dead-code elimination and loop-invariant code motion ----------------
+
+// c3CondFate tells what the optimizer can make of an if condition: "true" /
+// "false" when it folds to that literal on its own, "maybe" when it makes no
+// call but reads a variable (constant propagation may decide it: `p = 7; if
+// (p == 8) {…}`), "" when it depends on a call.
+func c3CondFate(e *c3E) string {
+	open, local := false, false
+	e.walk(func(x *c3E) {
+		switch {
+		case x.K == "call" || x.K == "arr":
+			open = true
+		case x.K == "var":
+			local = true
+		}
+	})
+	if open {
+		return ""
+	}
+	if local {
+		return "maybe"
+	}
+	fate := ""
+	func() {
+		defer func() { recover() }()
+		if l, ok := NewOptimizer(OptAggressive).OptimizeExpression(e.build(true)).(*ast.LiteralExpr); ok {
+			if b, ok := l.Value.(ast.BoolLiteral); ok {
+				fate = fmt.Sprint(b.Value)
+			}
+		}
+	}()
+	return fate
+}
+
+// c3StripDead removes what dead-code elimination may remove: afterReturn — the
+// statements that follow a return in the same list; constIf — the branch of an
+// `if` that cannot run when the optimizer decides the condition (dropThen says
+// which branch goes when the condition is only possibly constant).
+func c3StripDead(b []*c3S, afterReturn, constIf, dropThen bool) []*c3S {
+	var out []*c3S
+	for _, s := range b {
+		c := *s
+		c.B = c3StripDead(s.B, afterReturn, constIf, dropThen)
+		c.C = c3StripDead(s.C, afterReturn, constIf, dropThen)
+		if constIf && s.K == "if" {
+			switch fate := c3CondFate(s.E); {
+			case fate == "true", fate == "maybe" && !dropThen:
+				c.C = nil
+			case fate == "false", fate == "maybe" && dropThen:
+				c.B = nil
+			}
+		}
+		out = append(out, &c)
+		if afterReturn && s.K == "ret" {
+			break
+		}
+	}
+	return out
+}
+
+// c3DeadCodeTags: which kinds of dead code ("after-return", "constant-if") have
+// to go before the unoptimised compiler accepts p; nil when it accepts p as it
+// is, or rejects it for a statement that is not dead.
+func c3DeadCodeTags(p c3Prog) []string {
+	if c3Compile(p, c3AllV(len(p)), OptNone).ok() {
+		return nil
+	}
+	for _, t := range []struct {
+		ret, ci bool
+		tags    []string
+	}{{true, false, []string{"after-return"}}, {false, true, []string{"constant-if"}}, {true, true, []string{"after-return", "constant-if"}}} {
+		for _, dropThen := range []bool{false, true} {
+			q := c3Prog(c3StripDead(p, t.ret, t.ci, dropThen))
+			if c3Compile(q, c3AllV(len(q)), OptNone).ok() {
+				return t.tags
+			}
+		}
+	}
+	return nil
+}
+
+func c3DeadCodeTag(p c3Prog) string { return strings.Join(c3DeadCodeTags(p), "+") }
+
+// c3TopDecls counts the pointer-form declarations in the top-level list the
+// optimizer produces at this level.
+func c3TopDecls(p c3Prog, modes string, level OptimizationLevel) map[string]int {
+	m := map[string]int{}
+	for _, st := range NewOptimizer(level).OptimizeStatements(p.buildAST(modes)) {
+		if a, ok := st.(*ast.AssignStatement); ok {
+			m[a.Target]++
+		}
+	}
+	return m
+}
+
+// c3HoistClass tells what loop-invariant code motion moves out of the top-level
+// loops of p: "" when the aggressive optimizer puts no more declarations into
+// the top-level list than the basic one; else the classes of the hoisted
+// declarations' right-hand sides — "call" (contains a call), "variant" (reads a
+// variable the loop assigns), "invariant" (neither).
+func c3HoistClass(p c3Prog, modes string) (class string) {
+	defer func() {
+		if recover() != nil {
+			class = ""
+		}
+	}()
+	basic, aggr := c3TopDecls(p, modes, OptBasic), c3TopDecls(p, modes, OptAggressive)
+	classes := map[string]bool{}
+	for _, s := range p {
+		if s.K != "while" {
+			continue
+		}
+		assigned := map[string]bool{}
+		c3WalkStmts(s.B, func(b *c3S) {
+			if b.K == "decl" || b.K == "set" || b.K == "for" {
+				assigned[b.T] = true
+			}
+		}, nil)
+		for _, b := range s.B {
+			if b.K != "decl" || aggr[b.T] <= basic[b.T] {
+				continue
+			}
+			c := "invariant"
+			b.E.walk(func(x *c3E) {
+				if x.K == "var" && assigned[x.V] && c != "call" {
+					c = "variant"
+				}
+				if x.K == "call" {
+					c = "call"
+				}
+			})
+			classes[c] = true
+		}
+	}
+	return strings.Join(c3SortedKeys(classes), "+")
+}
+
+func c3Hoists(p c3Prog, modes string) bool { return c3HoistClass(p, modes) != "" }
+
 // ---- rewrite rules ---------------------------------------------------------------------
 
 func c3RenderAST(e ast.Expr) string {
@@ -417,34 +598,47 @@ func c3RenderAST(e ast.Expr) string {
 	return fmt.Sprintf("%T", e)
 }
 
+// c3HasCall: does evaluating e involve a call (an observable effect)?
+func c3HasCall(e *c3E) bool {
+	found := false
+	e.walk(func(x *c3E) {
+		if x.K == "call" {
+			found = true
+		}
+	})
+	return found
+}
+
 // c3Rules lists the expression rewrites the optimizer applies at this level to
 // the binary nodes of p when their non-literal operands are opaque: each node
-// op(l, r) is abstracted to a pattern (literals kept, variables renamed u/v with
-// equal variables equal, anything else an opaque call □) and handed to a fresh
-// Optimizer; a result other than the same node is a rule "pattern => result".
+// op(l, r) is abstracted to a pattern — literals kept; an operand whose
+// evaluation has no effect (a variable, an operator tree over variables and
+// literals) becomes a variable u/v (structurally equal operands get the same
+// name); an operand that contains a call becomes the opaque call □ — and handed
+// to a fresh Optimizer; a result other than the same node is a rule
+// "pattern => result".  A rule over u/v may erase a type error only; a rule over
+// □ also drops, repeats or reorders an observable call.
 func c3Rules(p c3Prog, level OptimizationLevel) []string {
 	seen := map[string]bool{}
 	c3WalkStmts(p, nil, func(e *c3E) {
 		if e.K != "bin" {
 			return
 		}
-		bothVars := e.A[0].K == "var" && e.A[1].K == "var"
 		names := map[string]string{}
 		abstract := func(c *c3E) ast.Expr {
 			switch c.K {
 			case "int", "float", "str", "bool", "null":
 				return c.build(true)
-			case "var":
-				if bothVars {
-					n, ok := names[c.V]
-					if !ok {
-						n = string(rune('u' + len(names)))
-						names[c.V] = n
-					}
-					return &ast.VariableExpr{Name: n}
-				}
 			}
-			return &ast.FunctionCallExpr{Name: "□"}
+			if c3HasCall(c) || c.K == "arr" {
+				return &ast.FunctionCallExpr{Name: "□"}
+			}
+			n, ok := names[c.String()]
+			if !ok {
+				n = string(rune('u' + len(names)))
+				names[c.String()] = n
+			}
+			return &ast.VariableExpr{Name: n}
 		}
 		l, r := abstract(e.A[0]), abstract(e.A[1])
 		op := c3Ops[e.V]
@@ -461,6 +655,10 @@ func c3Rules(p c3Prog, level OptimizationLevel) []string {
 			return
 		}
 		ls, rs := c3RenderAST(l), c3RenderAST(r)
+		if strings.Count(ls+rs, "□") == 1 && strings.Count(after, "□") == 1 {
+			// the call is still evaluated exactly once: the same rule as over a variable
+			ls, rs, after = strings.Replace(ls, "□", "u", 1), strings.Replace(rs, "□", "u", 1), strings.Replace(after, "□", "u", 1)
+		}
 		switch op {
 		case ast.Add, ast.Mul, ast.And, ast.Or, ast.Eq, ast.Ne:
 			if rs < ls {
@@ -741,7 +939,7 @@ func c3ReadMappings(res *vk.Result) (levels map[OptimizationLevel]bool) {
 
 func TestVerif_C03(t *testing.T) {
 	p := vk.Env()
-	res := vk.NewResult("every program of three bounded grammars (expression family: one expression of depth<=2 (thorough 3) in 6 statement templates; flow family: every statement list of length<=3 over the full statement alphabet and of length 4 over the small one (thorough: <=4 / 5); history family: every ordered pair of lists of length<=2 compiled by one Compiler) x AST encodings {val, ptr, ptr-stmt/val-expr, val-stmt/ptr-expr, ptr-top/val-nested, only-i-ptr, only-i-val} x levels {OptNone, OptBasic, OptAggressive}; a case is non-trivial when some compilation's bytecode differs from the value-form unoptimised bytecode; those are executed for every assignment of {0,1,2,1.5,\"a\",true,false,null,[1]} to the free variables")
+	res := vk.NewResult("every program of three bounded grammars (expression family: one expression of depth<=2 (thorough 3) in 6 statement templates; flow family: every statement list of length<=3 over the full statement alphabet and of length 4 (thorough: 4 and 5) over the small one; history family: every ordered pair of lists of length<=2 compiled by one Compiler) x AST encodings {val, ptr, ptr-stmt/val-expr, val-stmt/ptr-expr, ptr-top/val-nested, only-i-ptr, only-i-val} x levels {OptNone, OptBasic, OptAggressive}; a case is non-trivial when some compilation's bytecode differs from the value-form unoptimised bytecode; those are executed for every assignment of {0,1,2,1.5,\"a\",true,false,null,[1]} to the free variables")
 	ck := &c3Checker{res: res, p: p, levels: []OptimizationLevel{OptNone, OptBasic, OptAggressive},
 		kinds: map[string][]string{}, shrunk: map[string]c3Cand{}, keyOf: map[string]string{}, vm: vm.NewVM()}
 
@@ -834,14 +1032,18 @@ func TestVerif_C03(t *testing.T) {
 	// family 2: statement lists
 	full := c3FlowAlphabet(true)
 	small := c3FlowAlphabet(false)
-	fullLen, smallLen := 3, 4
+	// quick: every list of <= 3 statements over the full alphabet and of exactly
+	// 4 over the small one; thorough: additionally the lists of 5 over the small
+	// alphabet.  (Lists of 4 over the full alphabet are 5*10^7 programs: beyond
+	// any budget, so they are not claimed.)
+	fullLen, smallMin, smallMax := 3, 4, 4
 	if p.Thorough {
-		fullLen, smallLen = 4, 5
+		smallMax = 5
 	}
 	res.Bounds["flow_alphabet_full"] = len(full)
 	res.Bounds["flow_alphabet_small"] = len(small)
 	res.Bounds["flow_max_len_full"] = fullLen
-	res.Bounds["flow_len_small"] = smallLen
+	res.Bounds["flow_max_len_small"] = smallMax
 	if !stopped {
 		idx = c3Lists(full, 1, fullLen, idx, func(i int, build func() c3Prog) bool {
 			if mine(i) {
@@ -852,7 +1054,7 @@ func TestVerif_C03(t *testing.T) {
 		})
 	}
 	if !stopped {
-		idx = c3Lists(small, smallLen, smallLen, idx, func(i int, build func() c3Prog) bool {
+		idx = c3Lists(small, smallMin, smallMax, idx, func(i int, build func() c3Prog) bool {
 			if mine(i) {
 				pr := build()
 				ck.checkProgram(pr, "flow-small", c3FlowEncodings(len(pr), pr.hasNested()))
